@@ -158,7 +158,67 @@ FUNC = ("LogicalFunction", "SystemFunction", "OperationalActivity", "PhysicalFun
 COMP = ("LogicalComponent", "SystemComponent", "PhysicalComponent", "Entity")
 
 
+def fragment_trees(model, *, subdir_only=False):
+    """the semantic fragment files of the primary resource other than the main file: [(tree key, ModelFile)]"""
+    out = []
+    for f, t in model._loader.trees.items():
+        if f.parts[0] == "\0" and f.suffix == ".capellafragment" and (len(f.parts) > 2 or not subdir_only):
+            out.append((f, t))
+    return out
+
+
+def do_frag_edit(model, r: random.Random, neutral, created: list, log: list, key=None):
+    """an edit INSIDE a fragment file (by default one that lives in a sub-directory): rename / describe an element of it, its root, or
+    create / delete a child below one of its elements"""
+    fts = fragment_trees(model, subdir_only=True) or fragment_trees(model)
+    if key is not None:
+        fts = [(f, t) for f, t in fts if f == key] or fts
+    if not fts:
+        return
+    f, t = fts[r.randrange(len(fts))]
+    S = lambda: legal_string(r, neutral)
+    ids = [e.get("id") for e in t.root.iter() if isinstance(e.tag, str) and e.get("id") and e.get("href") is None
+           and (e.get(f"{{{XSI}}}type") or e is t.root)]
+    if not ids:
+        return
+    mode = r.random()
+    for _ in range(12):
+        uid = t.root.get("id") if mode < 0.2 and t.root.get("id") else ids[r.randrange(len(ids))]
+        try:
+            o = model.by_uuid(uid)
+        except Exception:  # noqa: BLE001
+            continue
+        cls = type(o)
+        if mode < 0.7:
+            if not all(hasattr(cls, a) for a in ("name", "description", "summary")):
+                continue
+            attr = r.choice(["name", "summary", "description"])
+            v = S()
+            log.append(({"name": "set_name", "summary": "set_summary", "description": "set_desc"}[attr], uid, v))
+            log.append(("in_fragment", str(pathlib.PurePosixPath(*f.parts[1:]))))
+            setattr(o, attr, v)
+            return
+        for rel in r.sample(["functions", "components", "constraints", "property_values", "packages", "classes", "capabilities"], 7):
+            lst = getattr(o, rel, None)
+            if lst is None or not hasattr(lst, "create"):
+                continue
+            try:
+                n = lst.create("StringPropertyValue", name=S(), value=S()) if rel == "property_values" else lst.create(name=S())
+            except Exception:  # noqa: BLE001
+                continue
+            log.append("create_in_fragment")
+            log.append(("in_fragment", str(pathlib.PurePosixPath(*f.parts[1:]))))
+            created.append(n)
+            if mode > 0.92:
+                lst.remove(n)
+                created.pop()
+                log.append("delete_in_fragment")
+            return
+
+
 def do_op(model, r: random.Random, neutral, created: list, log: list):
+    if fragment_trees(model) and r.random() < 0.35:
+        return do_frag_edit(model, r, neutral, created, log)
     op = r.choice(["set_name", "set_name", "set_desc", "set_summary", "create_fn", "create_comp", "create_constraint", "create_class",
                    "create_pv", "create_scenario", "create_reqmodule", "delete", "move", "ref_set", "spec_set", "spec_set", "spec_lang", "spec_del",
                    "create_exchange", "set_root", "set_root",
@@ -324,6 +384,7 @@ class Outcome:
         self.strings: list[str] = []
         self.kinds: dict = {}
         self.extremes: dict = {}
+        self.frag: dict = {}
 
 
 def semantic_inputs(loader, core, helpers, ns_mod):
@@ -441,6 +502,19 @@ def run_history(spec, seed: int, neutral: frozenset, skip_ops: frozenset, *, tie
                 shutil.copytree(v, tmp / k)
                 kw["resources"][k] = str(tmp / k)
         entry = tmp / src_dir.name / spec["path"].name
+        mroot = tmp / src_dir.name
+        if spec.get("frag"):
+            # the same model in Capella's fragmented layout: architecture layers / packages moved to .capellafragment files in
+            # sub-directories (harness/fragmenter.py; layout drawn from the history's seed, so re-runs of a history see the same files)
+            import c01
+            import fragmenter
+            fr = random.Random(seed ^ 0x5EED)
+            mains = sorted(mroot.glob("*.capella"))
+            picks, pinfo = c01.choose_picks(fr, mains[0], 3) if len(mains) == 1 else ([], {})
+            style = "chain" if fr.random() < 0.75 else "direct"
+            made = fragmenter.fragment_model(mroot, mains[0].name, spec["path"].name, picks, aird_style=style) if picks else []
+            out.frag = {"fragment_files": len(made), "in_sub_directory": sum("/" in f for f in made), "nested": pinfo.get("nested", 0),
+                        "picks": picks, "aird_style": style, "edits_in_fragments": 0, "edits_in_sub_directory_fragments": 0}
         model = capellambse.MelodyModel(str(entry), **kw)
         created: list = []
         rounds = r.choice([1, 1, 2, 3])
@@ -455,6 +529,18 @@ def run_history(spec, seed: int, neutral: frozenset, skip_ops: frozenset, *, tie
             except Exception as e:  # noqa: BLE001
                 out.rejected.append((-i - 1, kind, type(e).__name__))
         for rnd in range(rounds):
+            if spec.get("frag") and not directed:
+                # at least one edit inside every fragment file in every round (sub-directory ones included)
+                for fkey, _t in fragment_trees(model):
+                    opno += 1
+                    opseed = r.getrandbits(40)
+                    if opno in skip_ops:
+                        continue
+                    before = len(out.ops)
+                    try:
+                        do_frag_edit(model, random.Random(opseed), neutral, created, out.ops, key=fkey)
+                    except Exception as e:  # noqa: BLE001
+                        out.rejected.append((opno, out.ops[-1] if len(out.ops) > before else "?", type(e).__name__))
             for _ in range(r.randrange(1, 8 if tier == "quick" else 14) if not directed else 0):
                 opno += 1
                 opseed = r.getrandbits(40)
@@ -471,6 +557,7 @@ def run_history(spec, seed: int, neutral: frozenset, skip_ops: frozenset, *, tie
             with deep_recursion():
                 snap = {f: frozen_doc(t.root) for f, t in primary.items()}
             ns_in = semantic_inputs(loader, core, helpers, ns_mod) if want_corr else {}
+            disk_before = sorted(p_.relative_to(mroot).as_posix() for p_ in mroot.rglob("*") if p_.is_file())
             try:
                 model.save()
                 saved = True
@@ -493,6 +580,15 @@ def run_history(spec, seed: int, neutral: frozenset, skip_ops: frozenset, *, tie
                 break
             with deep_recursion():
                 after = {f: frozen_doc(t.root) for f, t in primary.items()}
+            # ---- the files on disk: save() writes every file of the primary resource where the model refers to it, and nothing else
+            disk_after = sorted(p_.relative_to(mroot).as_posix() for p_ in mroot.rglob("*") if p_.is_file())
+            if disk_after != disk_before:
+                out.problems.append(f"save() changed the set of files on disk: new {sorted(set(disk_after) - set(disk_before))}, "
+                                    f"missing {sorted(set(disk_before) - set(disk_after))}")
+            for f in primary:
+                rel_ = pathlib.PurePosixPath(*f.parts[1:]).as_posix()
+                if rel_ not in disk_after:
+                    out.problems.append(f"the loader holds {rel_!r}, which is not on disk at that path after save()")
             # ---- reload with a fresh model
             try:
                 m2 = capellambse.MelodyModel(str(entry), **kw)
@@ -601,7 +697,7 @@ def run_history(spec, seed: int, neutral: frozenset, skip_ops: frozenset, *, tie
             if want_corr and rnd == rounds - 1:
                 # the written bytes of small semantic fragments = the writer model on the in-memory tree
                 for f, t in primary.items():
-                    pth = tmp / src_dir.name / f.name
+                    pth = mroot.joinpath(*f.parts[1:])
                     if f.suffix in SEMANTIC and pth.exists() and pth.stat().st_size < 30_000:
                         b, rr, a = xmlenc.enc_doc(t.root)
                         out.file_cases.append(([f.suffix, b, rr, a], pth.read_bytes()))
@@ -676,8 +772,10 @@ def run(chk: lib.Check):
         plan.append((big[i % len(big)], rng.getrandbits(40)))
     ns_cases, file_cases = [], []
     stats = {"histories": 0, "ops": {}, "rejected_ops": {}, "created": 0, "saves_refused": 0, "skipped_after_rejected_op": 0,
-             "ns_root_replaced": 0, "ns_root_kept": 0, "files_compared": {}, "extremes": {}}
-    deadline = t0 + (120 if quick else 1400)
+             "ns_root_replaced": 0, "ns_root_kept": 0, "files_compared": {}, "extremes": {},
+             "fragmented": {"histories": 0, "fragment_files": 0, "in_sub_directory": 0, "nested": 0, "edits_in_fragments": 0,
+                            "edits_in_sub_directory_fragments": 0, "aird_style": {}}}
+    deadline = t0 + (150 if quick else 1400)
     # directed histories: every class of special string in a specification body / language / name once, and the
     # two namespace-requiring creations on the model that does not declare those namespaces
     specials = ['"&<>\'', "\t", "\r\n", "line1\nline2", " lead", "trail ", "\x7f", "\u0085x", "x\u2028", "\U0001F600", "\U0010FFFF", "&amp;&#x41;",
@@ -710,11 +808,20 @@ def run(chk: lib.Check):
     dplan += xplan
     if not quick:
         dplan += [(b_, d_) for b_ in big[1:] for _, d_ in dplan[:3]] + [(s_, dplan[3][1]) for s_ in small[1:]]
-    plan = [(sp_, 1000 + i, d_) for i, (sp_, d_) in enumerate(dplan)] + [(sp_, sd_, ()) for sp_, sd_ in plan]
+    # fragmented layouts (Capella's layout: fragments in sub-directories, nested, .airdfragment chain) of the small models and of one
+    # big one: same operations + edits inside every fragment file; they run before the random histories so that the time limit
+    # never cuts them
+    fsmall = [{"path": data / d_ / n_, "frag": True} for d_, n_ in (
+        ("decl/empty_project_52", "empty_project_52.aird"), ("writemodel", "WriteTestModel.aird"), ("pvmt", "PVMTTest.aird"),
+        ("parser", "TestItems.aird"), ("filtering", "Filtered Project.aird"), ("Library Test", "Library Test.aird")) if (data / d_ / n_).exists()]
+    rng.shuffle(fsmall)
+    fplan = [(fsmall[i % len(fsmall)], rng.getrandbits(40), ()) for i in range(9 if quick else 120)]
+    fplan += [(dict(big[i % len(big)], frag=True), rng.getrandbits(40), ()) for i in range(1 if quick else 12)]
+    plan = [(sp_, 1000 + i, d_) for i, (sp_, d_) in enumerate(dplan)] + fplan + [(sp_, sd_, ()) for sp_, sd_ in plan]
     for spec, seed, directed in plan:
         if time.time() > deadline:
             break
-        want_corr = len(ns_cases) < (40 if quick else 400)
+        want_corr = len(ns_cases) < (40 if quick else 400) or (bool(spec.get("frag")) and stats["fragmented"].get("ns_cases", 0) < (40 if quick else 400))
         try:
             out = run_history(spec, seed, frozenset(), frozenset(), tier=chk.tier, want_corr=want_corr, directed=directed)
         except Exception as e:  # noqa: BLE001
@@ -725,6 +832,17 @@ def run(chk: lib.Check):
             continue
         stats["histories"] += 1
         stats["created"] += out.created
+        tag_ = spec["path"].name + ("+fragmented" if spec.get("frag") else "")
+        if out.frag:
+            fs_ = stats["fragmented"]
+            fs_["histories"] += 1
+            fs_["ns_cases"] = fs_.get("ns_cases", 0) + len(out.ns_cases)
+            for k_ in ("fragment_files", "in_sub_directory", "nested"):
+                fs_[k_] += out.frag[k_]
+            inf_ = [e[1] for e in out.ops if isinstance(e, tuple) and e[0] == "in_fragment"]
+            fs_["edits_in_fragments"] += len(inf_)
+            fs_["edits_in_sub_directory_fragments"] += sum("/" in x for x in inf_)
+            fs_["aird_style"][out.frag["aird_style"]] = fs_["aird_style"].get(out.frag["aird_style"], 0) + 1
         for k_, v_ in out.kinds.items():
             stats["files_compared"][k_] = stats["files_compared"].get(k_, 0) + v_
         for k_, v_ in out.extremes.items():
@@ -744,7 +862,7 @@ def run(chk: lib.Check):
                 stats["ns_root_replaced"] += 1
         ns_cases += out.ns_cases
         file_cases += out.file_cases[:1] if len(file_cases) < (6 if quick else 60) else []
-        chk.note_case((spec["path"].name, seed), nontrivial=bool(out.ops))
+        chk.note_case((tag_, seed), nontrivial=bool(out.ops))
         if out.problems:
             key = None
             # the recorded defect of the HTML repair (a text run above 10,000,000 bytes comes back empty from lxml's default HTML
@@ -777,9 +895,9 @@ def run(chk: lib.Check):
                     stats["skipped_after_rejected_op"] += 1
                     continue
             if key is None:
-                key = f"history:{spec['path'].name}:{seed}"
-            chk.violation(key, f"{spec['path'].name} seed {seed}: {short(out.problems[0])}",
-                          {"model": spec["path"].name, "seed": seed, "ops": [list(e) if isinstance(e, tuple) else e for e in out.ops],
+                key = f"history:{tag_}:{seed}"
+            chk.violation(key, f"{tag_} seed {seed}: {short(out.problems[0])}",
+                          {"model": tag_, "seed": seed, "layout": out.frag or None, "ops": [list(e) if isinstance(e, tuple) else e for e in out.ops],
                            "problems": out.problems})
     chk.coverage["histories"] = stats
     chk.correspond(IMP, "w_update_ns", ns_cases, tag=f"C02_ns_{RUN}", shard=6)
